@@ -3,6 +3,8 @@ import ZbossModel.Props.C01
 #print axioms Zboss.Rx.C01_verdict_stable
 #print axioms Zboss.Rx.C01_progress
 #print axioms Zboss.Rx.C01_chunking
+#print axioms Zboss.Rx.C01_chunking_any_state
+#print axioms Zboss.Rx.C01_any_two_states
 #print axioms Zboss.Rx.C01_any_two_chunkings
 #print axioms Zboss.Rx.C01_prefix
 #print axioms Zboss.Rx.C01_pending
